@@ -146,7 +146,42 @@ func genPathsScenario(r *rng) []string {
 	return []string{encRepo(objs), joinOrDash(atoms, ","), joinOrDash(names, ","), joinOrDash(ops, ",")}
 }
 
+// a blob at the bottom of a chain of 30-60 nested directories: the description of a deeply nested object
+// must be built in time proportional to its depth (seeded change C05tz doubled the work per level)
+func genPathsDeepChain(r *rng) []string {
+	depth := 30 + r.n(31)
+	objs := []gObj{{kind: 'b', size: 7}}
+	objs = append(objs, gObj{kind: 't', entries: []gEntry{{0o100644, []byte("leaf"), 0}}})
+	for d := 0; d < depth; d++ {
+		objs = append(objs, gObj{kind: 't', entries: []gEntry{{0o40000, []byte(fmt.Sprintf("d%d", d%3)), len(objs) - 1}}})
+	}
+	top := len(objs) - 1
+	objs = append(objs, gObj{kind: 'c', tree: top, pad: 3})
+	c := len(objs) - 1
+	name := "refs/heads/deep"
+	atoms := []string{hxs(name) + "=" + strconv.Itoa(c)}
+	names := []string{hxs(name) + "=" + strconv.Itoa(c)}
+	ops := []string{"R0:b", "R1:t"}
+	var recs []string
+	recs = append(recs, "E1:"+hx([]byte("leaf"))+":0")
+	for t := 2; t <= top; t++ {
+		recs = append(recs, fmt.Sprintf("E%d:%s:%d", t, hx(objs[t].entries[0].name), t-1))
+	}
+	recs = append(recs, fmt.Sprintf("C%d:%d", c, top))
+	if r.coin(1, 2) { // parents first, as the scan delivers them when subtrees are already known
+		for i, j := 0, len(recs)-1; i < j; i, j = i+1, j-1 {
+			recs[i], recs[j] = recs[j], recs[i]
+		}
+	}
+	ops = append(ops, recs...)
+	ops = append(ops, "N"+hxs(name)+":"+strconv.Itoa(c))
+	return []string{encRepo(objs), joinOrDash(atoms, ","), joinOrDash(names, ","), joinOrDash(ops, ",")}
+}
+
 func genPathsCase(r *rng, tier string) []string {
+	if r.coin(1, 40) {
+		return genPathsDeepChain(r)
+	}
 	if r.coin(1, 5) {
 		return genPathsScenario(r)
 	}
